@@ -37,6 +37,11 @@ impl EventLoop {
                     error!("select error = {e:?}");
                     Some(timeout_ns)
                 }
+            };
+            // the worker has still coroutines to run: it went through its share of
+            // them or an io timeout resumed one that yielded. Poll only, don't wait
+            if scheduler.has_local_tasks(id) {
+                next_expire = Some(0);
             }
         }
     }
